@@ -41,7 +41,7 @@ class C04(Spec):
     TRUST = [
         'modelled, not verified: list/dict/Counter semantics used by cancel/requeue; float -> sample conversion of '
         'pause(t)/resume(t) is done by the harness with the code\'s expression int(round((t - t0)*fs)) and the model '
-        'works on integer sample positions; "ends after t" is k + ceil(duration*fs) > m',
+        'works on integer sample positions; "ends after t" is k + round(duration*fs) > m (the trial still had samples to play at m)',
         'the model follows queue.py with notes/C03_fix_1.diff and notes/C04_fix_1..5.diff applied',
         'pop_buffer(decrement=False) and direct calls of cancel()/requeue()/next_trial() from outside are not modelled',
     ]
